@@ -2202,14 +2202,14 @@ Proof.
   intros H. apply (f_equal (fun fr => snd (fst fr))) in H. vm_compute in H. discriminate.
 Qed.
 
-(* the repaired code refuses all of these without touching the state *)
+(* the repaired code refuses all of these (and, by error_frame, leaves the state as it was) *)
 Lemma repaired_refuses_witnesses :
-  step repaired (run repaired init prelude) (RMerge (U u2) true [U u2; U u3] u4) = (run repaired init prelude, Fail) /\
-  step repaired (run repaired init prelude) (RMerge (U u2) true [U u2; U u2] u4) = (run repaired init prelude, Fail) /\
-  step repaired (run repaired init prelude) (RTag (U u2) u1) = (run repaired init prelude, Fail) /\
-  step repaired (run repaired init prelude) (RTag (U u2) "") = (run repaired init prelude, Fail) /\
-  step repaired init (RNewRepo (Some "xa") "" u1) = (init, Fail).
-Proof. vm_compute. auto. Qed.
+  snd (step repaired (run repaired init prelude) (RMerge (U u2) true [U u2; U u3] u4)) = Fail /\
+  snd (step repaired (run repaired init prelude) (RMerge (U u2) true [U u2; U u2] u4)) = Fail /\
+  snd (step repaired (run repaired init prelude) (RTag (U u2) u1)) = Fail /\
+  snd (step repaired (run repaired init prelude) (RTag (U u2) "")) = Fail /\
+  snd (step repaired init (RNewRepo (Some "xa") "" u1)) = Fail.
+Proof. vm_compute. repeat split. Qed.
 
 (* ------------------------------------------------------------------ the fuel is enough *)
 (* the ancestry walk visits strictly decreasing version ids of one repo: it cannot take more steps
